@@ -96,12 +96,24 @@ CFG = {
             'of the pitch); every tenth case a critical one (eccentricity e ~ 1, M ~ 0: slowest Newton convergence). '
             '`kt` lines: bit patterns of closest_t, Helix::at(t), Helix::at(tq) from the hooks versus the extracted '
             'PrimFloat model with glibc libm; one case in eight with other tolerance / iteration counts. `relk` lines: '
-            'implementation-only brute-force oracle (20001-point grid + golden-section refinement), a test. '
+            'implementation-only brute-force oracle (20001-point grid + golden-section refinement), a test; the label ends '
+            'in `:t-interior` / `:t-at-pi` (the minimality clause of the property applies only to t strictly inside '
+            '(-pi, pi); of the classes above 62 % end interior). A second stream (`rel:interior/...`, 58 % of the relk '
+            'lines) keeps the TRUE minimiser strictly inside: helix point at t0 uniform in (-3, 3) displaced by <= 1 cm '
+            'along the principal normal or in a random direction with |dz| < 0.45 |h|; labelled `interior` only when the '
+            'brute-force minimiser satisfies |t| < 3.1 (checked fact), else `interior-not-confirmed`; with it 84 % of all '
+            'relk lines have t strictly interior. '
             'relkt / relkc / relkv lines: the same oracle where the library reports t through its public API '
             '(Track::try_from -> t_inner/t_outer against the innermost/outermost cluster point, with clusters given by the '
-            'hook or found by cluster_spacepoints; find_vertices -> t of every track of the primary vertex), applied '
-            'when the fitted helix lies in the quantified domain (centre within +-3 m, radius 0.03-5 m, |pitch| <= 1e2 m). '
-            'non-trivial = |h| >= EPSILON (Kepler branch reached) / a track in the domain was produced',
+            'hook or found by cluster_spacepoints; find_vertices -> t of every track of the primary vertex). The case line '
+            'carries a trailer ` | <k> <x0 y0 z0 r phi0 h>*k` with the helices the library produced (re-computed and compared '
+            'bit for bit on replay: `fails helix-params-differ-from-case-line`). A helix outside the quantified domain '
+            '(centre within +-3 m, radius 0.03-5 m, |pitch| <= 1e2 m, finite) is an explicit outcome, never `holds`: both '
+            'the harness and the model runner (same predicate on the trailer\'s bit patterns) print '
+            '`skipped out-of-domain <nonfinite-params|negative-radius|radius<0.03m|radius>5m|centre|pitch>` (first such '
+            'track; a `fails` on a track inside the domain wins); for these helices the oracle still runs and its class goes '
+            'into the label only (`out-of-domain:<bound>:<closest|t-at-pi|not-closest>1e-9m|>1e-6m|>1e-3m|...>`). '
+            'non-trivial = |h| >= EPSILON (Kepler branch reached) / a track in the domain was produced and checked',
     'trusted': ['hand-written PrimFloat model of Helix::closest_t / Helix::at (coq/Recon/Helix.v), tied to '
                 'physics/src/reconstruction.rs by the bit-exact differential run',
                 'uom 0.35 operator semantics as read from its source (new = (v + -0.0) * 1.0, get = v / 1.0 - 0.0: identities, signed zero preserved, '
@@ -119,7 +131,19 @@ CFG = {
                   'through glibc sin/cos, NaN-freedom, global minimality within 1e-9 m (no verified libm / VCFloat here). '
                   'These are measured on the implementation by a brute-force oracle (a test).',
     'level_note': 'trusted: Coq kernel; hand-written float model tied by a bit-exact differential run against the cfg hooks '
-                  '(any change of formula, guard, iteration count or clamp shows as a bit difference); glibc libm; harness',
+                  '(any change of formula, guard, iteration count or clamp shows as a bit difference); glibc libm; harness. '
+                  'MEASURED, outside the quantifier of C16 and recorded, not hidden: for inputs of C14\'s quantifier (nearly '
+                  'collinear, vertical, random, noisy clusters) the library itself returns helices outside C16\'s domain '
+                  '(radius 0.03-5 m, centre within +-3 m): quick seed 1: 128 of 292 fitted tracks (70 radius > 5 m, up to 1e88 m; '
+                  '24 negative radius; 28 radius < 0.03 m; 4 centre; 2 pitch) and 133 of 922 primary-vertex tracks (centre), '
+                  '212 lines `skipped out-of-domain`; thorough: 2136 of 4908 fitted tracks and 1448 of 9526 vertex tracks, 2695 '
+                  'lines. On those helices t_inner / t_outer are NOT always closest-approach parameters: quick 39 of 261 '
+                  'helices (15 by more than 1 mm, maximum 0.91 m), thorough 650 of 3584 (245 by more than 1 mm, maximum 1.80 m); '
+                  'all but one have radius >= 1.9e6 m (cancellation in x0 + r cos), one has a negative radius (r = -0.17 m, '
+                  'excess 0.18 m). These lines are observations `skipped out-of-domain <bound>` (counted in '
+                  'implementation_outcomes; class of the excess in the generator histogram labels `out-of-domain:...`), never `holds`',
     'note': 'kt lines: model and implementation must agree bit for bit. relk lines: implementation-only oracle, the model '
-            'runner answers `holds`; a `fails` line is an input of the quantified domain on which the property fails',
+            'runner answers `holds`; a `fails` line is an input of the quantified domain on which the property fails. '
+            'relkt/relkc/relkv lines: the model runner answers `holds` or `skipped out-of-domain <bound>` from the helix '
+            'parameters in the case line\'s trailer; `skipped` = the library-made helix is outside the quantifier of C16',
 }
